@@ -59,11 +59,11 @@ class Client:
         return d
 
 
-def gen_scenario(rng):
-    transport = rng.choice(["tcp", "unix"])
-    n = rng.choice([0, 1, 1, 2, 2, 3, 4])
+def gen_order(rng, base=0, earlier=(), leave=0.8):
+    """One serving period: the actions of clients base..base+n-1 merged in a random order, with the stop somewhere."""
+    n = rng.choice([0, 1, 1, 2, 2, 3, 4]) if rng.random() > 0.06 else rng.randint(8, 12)  # occasionally many clients one after the other
     per = []
-    for c in range(n):
+    for c in range(base, base + n):
         acts = [("connect", c)] if rng.random() < 0.65 else [("open", c), ("hello", c)]
         parked = False
         for _ in range(rng.randint(0, 4)):
@@ -76,22 +76,38 @@ def gen_scenario(rng):
                 acts.append(("park", c))
                 parked = True
                 break
-        if rng.random() < 0.8:
+        if rng.random() < leave:
             acts.append(("disc", c, rng.choice(["close", "close", "eof", "abort"])))
         per.append(acts)
     if rng.random() < 0.3:
-        per.append([("blank", n, rng.choice(["\n", "  \n", "\r\n", ""]), rng.choice(["close", "eof"]))])
+        per.append([("blank", base + n, rng.choice(["\n", "  \n", "\r\n", ""]), rng.choice(["close", "eof"]))])
         n += 1
+    for c in earlier:
+        # clients of an earlier serving period that may still be connected: a probe and / or their departure
+        acts = []
+        if rng.random() < 0.5:
+            acts.append(("probe", c, rng.choice(list(PROBES))))
+        if rng.random() < 0.7:
+            acts.append(("disc", c, rng.choice(["close", "eof", "abort"])))
+        if acts:
+            per.append(acts)
     # merge preserving per-client order
     order = []
-    idx = [0] * n
+    idx = [0] * len(per)
     while True:
-        live = [c for c in range(n) if idx[c] < len(per[c])]
+        live = [c for c in range(len(per)) if idx[c] < len(per[c])]
         if not live:
             break
         c = rng.choice(live)
         order.append(per[c][idx[c]])
         idx[c] += 1
+    return order, n
+
+
+def gen_scenario(rng):
+    transport = rng.choice(["tcp", "unix"])
+    again = rng.random() < 0.35
+    order, n = gen_order(rng, leave=0.4 if again else 0.8)
     if rng.random() < 0.85:
         order.insert(rng.randint(0, len(order)), ("stop",))
     sc = {"transport": transport, "cls": rng.choice(["T", "S"]), "order": order, "nclients": n}
@@ -100,6 +116,22 @@ def gen_scenario(rng):
     if rng.random() < 0.22:
         lines = [rng.choice(["num-running", "num-ended", "is-full", "Num-Running", "  is-locked  ", "num-cancelled"]) for _ in range(rng.randint(0, 3))]
         sc["cli"] = {"lines": lines, "end": rng.choice(["exit", "eof", "EXIT"]), "at": rng.randint(0, len(order))}
+    if again:
+        # the same server object is stopped and asked to serve again, once or twice; clients of an earlier period may
+        # still be connected (then the earlier serving task is still pending) or long gone
+        rounds = [order]
+        if ("stop",) not in order:
+            order.insert(rng.randint(0, len(order)), ("stop",))
+        for _ in range(rng.choice([1, 1, 2])):
+            o, k = gen_order(rng, base=n, earlier=list(range(n)), leave=0.6)
+            n += k
+            rounds.append(o)
+        for o in rounds[1:-1]:
+            o.insert(rng.randint(0, len(o)), ("stop",))
+        if rng.random() < 0.7:
+            rounds[-1].insert(rng.randint(0, len(rounds[-1])), ("stop",))
+        sc["rounds"] = rounds
+        sc["nclients"] = n
     return sc
 
 
@@ -115,6 +147,7 @@ class World:
         self.clients = {}
         self.t0 = time.monotonic()
         self.stopped = False
+        self.round = 0
         self.loop_errors = []
         self.triggers = set()
 
@@ -168,6 +201,10 @@ class World:
             shutil.rmtree(self.tmp, ignore_errors=True)
         return {"viol": self.viol, "sit": dict(self.sit), "inconclusive": self.inconclusive}
 
+    def gone(self, cl):
+        """Has the serving period this client connected in been stopped?"""
+        return self.stopped or cl.round < self.round
+
     async def settle(self, need=6):
         """Socket quiescence: consecutive 1 ms ticks in which only the ticker ran and nothing is readable."""
         lp = self.loop
@@ -207,6 +244,7 @@ class World:
             pass
         cl.pump = asyncio.ensure_future(cl._pump())
         cl.connected_after_stop = self.stopped
+        cl.round = self.round
         if not hello:
             cl.pending_hello = True
             self.sit["C19.deferred_handshake"] += 1
@@ -310,12 +348,12 @@ class World:
             await self._main2()
         finally:
             # never leave a task behind that the runner could not cancel in one go
-            t = self.serving_task
-            for _ in range(6):
-                if t is None or t.done():
-                    break
-                t.cancel()
-                await asyncio.sleep(0.005)
+            for t in list(getattr(self, "serving_tasks", ())) + [self.serving_task]:
+                for _ in range(6):
+                    if t is None or t.done():
+                        break
+                    t.cancel()
+                    await asyncio.sleep(0.005)
             for cl in self.clients.values():
                 if cl.pump is not None:
                     cl.pump.cancel()
@@ -377,21 +415,78 @@ class World:
         self.sit["C19.started." + sc["transport"]] += 1
         return srv, task
 
+    async def restart_server(self, srv, old_task):
+        """serve_forever() once more on the same server object (same address)."""
+        clause = "C19.returns_task"
+        overlap = not old_task.done()
+        self.sit["C19.restart." + ("earlier_task_pending" if overlap else "earlier_task_done")] += 1
+        start = asyncio.ensure_future(srv.serve_forever())
+        await self.settle()
+        if not start.done():
+            self.violate(clause, "serve_forever() called again on the stopped server: had not returned at the first quiescence")
+            start.cancel()
+            return None
+        if start.exception() is not None:
+            e = start.exception()
+            import errno
+
+            if isinstance(e, OSError) and e.errno == errno.EADDRINUSE and self.sc["transport"] == "tcp":
+                self.sit["C19.restart_port_taken_by_other_process"] += 1  # parallel checks recycle ports: harness race
+                return None
+            self.violate(clause, f"serve_forever() called again on the stopped server raised {e!r}")
+            return None
+        task = start.result()
+        if not isinstance(task, asyncio.Task) or task.done():
+            self.violate(clause, f"serve_forever() called again on the stopped server returned {task!r} instead of a pending task"
+                                 + (f" ({task.exception()!r})" if isinstance(task, asyncio.Task) and task.done() and not task.cancelled() else ""))
+            return None
+        self.serving_tasks.append(task)
+        if not srv.is_serving():
+            self.violate(clause, "is_serving() is false right after serve_forever() returned (served again)")
+        if self.sc["transport"] == "unix" and not os.path.exists(self.path):
+            self.violate(clause, "the unix socket file does not exist while serving (served again)")
+        return srv, task
+
     async def _main2(self):
         sc = self.sc
-        started = await self.start_server()
-        if started is None:
-            return
-        srv, task = started
-        cli = sc.get("cli")
+        rounds = sc.get("rounds") or [sc["order"]]
+        self.serving_tasks = []
+        srv = task = None
+        for ri, order in enumerate(rounds):
+            self.round = ri
+            if ri == 0:
+                started = await self.start_server()
+                if started is not None:
+                    self.serving_tasks.append(started[1])
+            else:
+                if not self.stopped:
+                    task.cancel()
+                    self.stopped = True
+                    await self.settle()
+                started = await self.restart_server(srv, task)
+                if started is None:
+                    break
+                self.stopped = False
+            if started is None:
+                return
+            srv, task = started
+            self.serving_task = task
+            await self._round(srv, task, order, sc.get("cli") if ri == 0 else None)
+        if task is not None:
+            await self._finish(srv, task)
+
+    async def _round(self, srv, task, order, cli):
+        sc = self.sc
         cli_task = None
-        for i, act in enumerate(sc["order"] + [("end",)]):
+        for i, act in enumerate(order + [("end",)]):
             if cli is not None and cli["at"] == i and not self.stopped:
                 rc, out, err, exp = await self.cli_client(cli)
                 self.note("cli", rc, repr(out[-300:]), repr(err[-200:]))
                 self.check_cli(rc, out, err, exp)
                 cli = None
             kind = act[0]
+            if not self.stopped and not srv.is_serving():
+                self.violate("C19.concurrent", f"is_serving() is false while the serving task is pending and not cancelled (before action {i} of serving period {self.round})")
             if kind == "end":
                 break
             if kind == "stop":
@@ -427,7 +522,7 @@ class World:
             if kind == "hello":
                 cl = self.clients.get(c)
                 if cl is not None and cl.writer is not None and getattr(cl, "pending_hello", False):
-                    if self.stopped and not cl.connected_after_stop:
+                    if self.gone(cl) and not cl.connected_after_stop:
                         # connected while serving, handshake after the stop: the session may or may not still be served
                         cl.pending_hello = False
                         continue
@@ -440,7 +535,7 @@ class World:
                 key = act[2]
                 got = await self.command(cl, key)
                 self.note("probe", c, key, got)
-                if self.stopped and not got:
+                if self.gone(cl) and not got:
                     # after the stop a session may finish its current command and then leave
                     self.sit["C19.probe_after_stop_unanswered"] += 1
                     continue
@@ -459,7 +554,7 @@ class World:
                     self.sit["C19.spawn_cmd" + (".locked" if self.pool.is_locked else "")] += 1
                 got = await self.command(cl, line)
                 self.note("cmd", c, act[2], got[:60])
-                if not got and not self.stopped and act[2] != "flush":
+                if not got and not self.gone(cl) and act[2] != "flush":
                     self.violate("C19.concurrent", f"client {c}: no reply to {act[2]!r}")
             elif kind == "park":
                 got = await self.command(cl, "until-closed")
@@ -469,10 +564,14 @@ class World:
                 self.sit["C19.parked"] += 1
             elif kind == "disc":
                 before = snapshot(self.pool)
+                if cl.round < self.round and not self.stopped:
+                    self.sit["C19.earlier_period_client_leaves_while_serving_again"] += 1
                 await self.disconnect(cl, act[2])
                 after = snapshot(self.pool)
                 if before != after:
                     self.violate("C19.disconnect_harmless", f"client {c} disconnecting ({act[2]}) changed the pool: {before} -> {after}")
+    async def _finish(self, srv, task):
+        sc = self.sc
         # everybody leaves
         for cl in self.clients.values():
             if cl.writer is not None and not cl.writer.is_closing():
@@ -482,8 +581,12 @@ class World:
             self.stopped = True
             self.sit["C19.stop_with_clients.0"] += 1
         await self.settle(need=12)
-        if not task.done():
-            self.violate("C19.stops", "every client has disconnected and the loop is quiescent, but the cancelled serving task has not completed")
+        pend = [t for t in self.serving_tasks if not t.done()]
+        if task is None:
+            return
+        if pend:
+            self.violate("C19.stops", "every client has disconnected and the loop is quiescent, but the cancelled serving task has not completed"
+                                      + (f" ({len(pend)} of {len(self.serving_tasks)} serving periods)" if len(self.serving_tasks) > 1 else ""))
             return
         self.sit["C19.stopped"] += 1
         if not task.cancelled() and task.exception() is not None:
